@@ -197,9 +197,9 @@ PROP = Prop(
           "min>1e-12 -> shape (2,n), 0/1 values, non-random marginals within 3 of n*p_i. "
           "Non-trivial = rates not within 1e-3 of 0.5 (normal); n*p not an integer (Bernoulli)."),
     clauses=[
-        Clause("normal", check_normal, strategy=_normal_cases(), quick=600, thorough=3000, quick_shards=3,
+        Clause("normal", check_normal, strategy=_normal_cases(), quick=600, thorough=18000, quick_shards=3,
                min_nontrivial=200, doc="NormalDataset inverses, roc, from_metrics, sample"),
-        Clause("bernoulli", check_bernoulli, strategy=_bern_cases(), quick=600, thorough=3000,
+        Clause("bernoulli", check_bernoulli, strategy=_bern_cases(), quick=600, thorough=18000,
                quick_shards=3, min_nontrivial=200, doc="Bernoulli counts, correlated pair validity"),
     ],
 )
